@@ -17,6 +17,7 @@ from sklearn.utils.multiclass import class_distribution
 
 from sktime.classification.base import BaseClassifier
 from sktime.transformations.panel.dictionary_based import SFA
+from sktime.utils.validation import check_n_jobs
 from sktime.utils.validation.panel import check_X, check_X_y
 
 
@@ -299,7 +300,7 @@ class BOSSEnsemble(BaseClassifier):
         correct = 0
         required_correct = int(lowest_acc * train_size)
 
-        if self.n_jobs > 1:
+        if check_n_jobs(self.n_jobs) > 1:
             c = Parallel(n_jobs=self.n_jobs)(
                 delayed(boss._train_predict)(
                     i,
